@@ -16,7 +16,7 @@
                               arguments the method cannot use -> error datagram + failure
                response    -> resolves the outstanding request when the rpc id matches, sender joins the table
                error       -> fails the outstanding request when the rpc id matches (a failure is recorded)
-   Probe     afterwards a plain ping from the same sender is still answered.
+   Probe     afterwards a plain ping from the same sender is still answered (the node keeps serving).
 
    Which input is garbage is decided here (Class of the reference decoder's result), never by the code under
    test.  The input families (kase.fam):
@@ -24,11 +24,15 @@
      mut    1..3 positions edited by class:                    inside every opaque run); k = 0 is the empty input
               1 digit->letter   2 letter->digit   3 an 'e' removed   4 number inflated ('9' inserted in front)
               5 number made negative ('-' in front)   6 one byte of an id/token/text changed
+              7..10 a number spelt the way Python's int() tolerates: "+" or a blank in front, a newline behind,
+                    "_" between digits
             pairs within W2 positions, triples within W3
      conf   type confusion: every value in the tree replaced by each other type (int, bytes, list, dict, in a
-            falsy and a truthy variant; a 20/48 byte id by a list of 20/48 ints; an int by its digits as bytes),
+            falsy and a truthy variant; a 20/48 byte id by a list of 20/48 ints; an int by its digits as bytes;
+            a byte string by one a byte shorter and one a byte longer),
             every integer key by its byte-string spelling and by a list
      miss   every dictionary entry / list item removed
+     big    every byte string in the tree replaced by 1 998 and by 64 935 bytes of text
      nest   nesting depth n in DEPTHS: l^n e^n, l^n, (d1:a)^n i0e e^n, (d1:a)^n as the whole datagram, as the
             rpc id, as the request arguments and as the response payload
      tiny   every string up to TINYLEN over {d l i e 1 3 - :} plus the known seeds d-3:e l-3:e d1:a-3:e
@@ -75,16 +79,24 @@ TruncCases ==
 
 \* ---- 1..3 position edits by class
 FirstDigit(s, q) == IsDigit(s[q]) /\ (q = 1 \/ ~IsDigit(s[q - 1]))
+LastDigit(s, q) == IsDigit(s[q]) /\ (q = Len(s) \/ ~IsDigit(s[q + 1]))
+InnerDigit(s, q) == IsDigit(s[q]) /\ q > 1 /\ IsDigit(s[q - 1])
 ClassesAt(s, q) == (IF IsDigit(s[q]) THEN {1} ELSE {}) \cup (IF IsLetter(s[q]) THEN {2} ELSE {})
-                   \cup (IF s[q] = 101 THEN {3} ELSE {}) \cup (IF FirstDigit(s, q) THEN {4, 5} ELSE {})
-                   \cup (IF IsOp(s[q]) THEN {6} ELSE {})
+                   \cup (IF s[q] = 101 THEN {3} ELSE {}) \cup (IF FirstDigit(s, q) THEN {4, 5, 7, 8} ELSE {})
+                   \cup (IF IsOp(s[q]) THEN {6} ELSE {}) \cup (IF LastDigit(s, q) THEN {9} ELSE {})
+                   \cup (IF InnerDigit(s, q) THEN {10} ELSE {})
 Edits(s) == UNION {{<<q, c>> : c \in ClassesAt(s, q)} : q \in 1..Len(s)}
+InsertBefore(s, q, x) == SubSeq(s, 1, q - 1) \o <<x>> \o SubSeq(s, q, Len(s))
 Apply1(s, q, c) == CASE c = 1 -> [s EXCEPT ![q] = 120]
                      [] c = 2 -> [s EXCEPT ![q] = 55]
                      [] c = 3 -> Remove(s, q)
-                     [] c = 4 -> SubSeq(s, 1, q - 1) \o <<57>> \o SubSeq(s, q, Len(s))
-                     [] c = 5 -> SubSeq(s, 1, q - 1) \o <<45>> \o SubSeq(s, q, Len(s))
+                     [] c = 4 -> InsertBefore(s, q, 57)
+                     [] c = 5 -> InsertBefore(s, q, 45)
                      [] c = 6 -> [s EXCEPT ![q] = Op(MutTag(OpTag(s[q])), OpN(s[q]))]
+                     [] c = 7 -> InsertBefore(s, q, 43)               \* "+" in front of a number
+                     [] c = 8 -> InsertBefore(s, q, 32)               \* a blank in front of a number
+                     [] c = 9 -> InsertBefore(s, q + 1, 10)           \* a newline after a number
+                     [] c = 10 -> InsertBefore(s, q, 95)              \* "_" between two digits
 \* es = <<q1, c1, q2, c2, ...>> with q1 < q2 < ...; the rightmost edit is applied first so positions stay valid
 RECURSIVE ApplyAll(_, _)
 ApplyAll(s, es) == IF es = <<>> THEN s
@@ -124,11 +136,17 @@ DropAt(x, path, i) ==
        ELSE D([x.v EXCEPT ![h] = <<x.v[h][1], DropAt(x.v[h][2], Tail(path), i)>>])
 AltSeq == <<I(0), I(7), S(<<>>), S(XYZ), L(<<>>), L(<<I(1)>>), D(<<>>), D(<< <<S(<<97>>), I(1)>> >>)>>
 \* alternative a for node x: 1..8 = AltSeq[a] (of another type); 9 = a list of as many ints as the id has bytes;
-\* 10 = the digits of the int as a byte string
+\* 10 = the digits of the int as a byte string; 11 / 12 = the byte string one byte shorter / longer
 AltsFor(x) == {a \in 1..8 : AltSeq[a].t # x.t}
               \cup (IF x.t = "s" /\ Weight(x.v) \in {20, 48} THEN {9} ELSE {})
               \cup (IF x.t = "i" THEN {10} ELSE {})
-Alt(x, a) == IF a <= 8 THEN AltSeq[a] ELSE IF a = 9 THEN L(Rep(I(1), Weight(x.v))) ELSE S(IntText(x.v))
+              \cup (IF x.t = "s" /\ x.v # <<>> THEN {11, 12} ELSE {})
+Shorter(b) == LET n == Len(b) IN
+              IF IsOp(b[n]) THEN SubSeq(b, 1, n - 1) \o Run(OpTag(b[n]), OpN(b[n]) - 1) ELSE SubSeq(b, 1, n - 1)
+Alt(x, a) == IF a <= 8 THEN AltSeq[a]
+             ELSE IF a = 9 THEN L(Rep(I(1), Weight(x.v)))
+             ELSE IF a = 10 THEN S(IntText(x.v))
+             ELSE IF a = 11 THEN S(Shorter(x.v)) ELSE S(Append(x.v, 120))
 DictPaths(x) == {q \in Paths(x) : NodeAt(x, q).t = "d"}
 BoxPaths(x) == {q \in Paths(x) : NodeAt(x, q).t \in {"l", "d"}}
 ConfCases ==
@@ -144,6 +162,15 @@ MissCases ==
   UNION {LET tr == BaseTree(b) IN
          UNION {{[fam |-> "miss", base |-> b, p |-> q \o <<0, i>>, bytes |-> Enc(DropAt(tr, q, i))] :
                     i \in 1..Len(NodeAt(tr, q).v)} : q \in BoxPaths(tr)}
+         : b \in BaseNames}
+
+\* ---- oversized fields: 999*k bytes of text in place of every byte string
+T_BIG == 40
+BigPaths(x) == {q \in Paths(x) : NodeAt(x, q).t = "s"}
+BigCases ==
+  UNION {LET tr == BaseTree(b) IN
+         {[fam |-> "big", base |-> b, p |-> q \o <<0, k>>, bytes |-> Enc(ReplaceAt(tr, q, S(Rep(Op(T_BIG, 999), k))))] :
+             q \in BigPaths(tr), k \in {2, 65}}
          : b \in BaseNames}
 
 \* ---- nesting
@@ -171,7 +198,7 @@ TinySeeds == {<<100, 45, 51, 58, 101>>, <<108, 45, 51, 58, 101>>, <<100, 49, 58,
 TinyCases == {[fam |-> "tiny", base |-> "", p |-> <<>>, bytes |-> t] : t \in StrUpTo(TINYLEN) \cup TinySeeds}
 
 BaseCases == {[fam |-> "base", base |-> b, p |-> <<>>, bytes |-> BaseBytes[b]] : b \in BaseNames}
-ICases == BaseCases \cup TruncCases \cup MutCases \cup ConfCases \cup MissCases \cup NestCases \cup TinyCases
+ICases == BaseCases \cup TruncCases \cup MutCases \cup ConfCases \cup MissCases \cup BigCases \cup NestCases \cup TinyCases
 
 \* ---------------------------------------------------------------- the handler
 R0 == {T_KNOWN}
@@ -230,7 +257,7 @@ Receive ==
 
 Probe == /\ phase = "probe"
          /\ sent' = Append(sent, [ty |-> "response", rpc |-> T_PROBE])
-         /\ routing' = routing \cup {T_NODE}
+         /\ routing' = IF fails = 0 THEN routing \cup {T_NODE} ELSE routing   \* a sender with a fresh failure is not admitted
          /\ phase' = "done"
          /\ UNCHANGED <<kase, cls, why, store, fails, pend, outcome>>
 
@@ -238,9 +265,9 @@ INext == Receive \/ Probe
 ISpec == IInit /\ [][INext]_vars
 
 \* ---------------------------------------------------------------- the property (Leg A)
-Handled == phase # "recv"
+Handled == phase = "probe"                      \* the state right after Receive
 \* the handler returns; it has no way of not returning
-Total == Handled => outcome = "returned"
+Total == phase # "recv" => outcome = "returned"
 \* garbage changes neither table nor store nor the node's own outstanding request, and is answered, if at all, by an error datagram
 GarbageDropped == (phase = "probe" /\ cls = "garbage") =>
                      /\ routing = R0 /\ store = S0 /\ pend = "waiting"
@@ -258,15 +285,22 @@ ShallowNestAccepted == (Handled /\ kase.fam = "nest" /\ kase.p[3] <= MAXNEST /\ 
 IsLenStart(s, q) == FirstDigit(s, q) /\ LET num == ScanNum(s, q, 0, 0) IN num[2] <= Len(s) /\ s[num[2]] = 58
 NegLen == kase.fam = "mut" /\ Len(kase.p) = 2 /\ kase.p[2] = 5 /\ IsLenStart(BaseBytes[kase.base], kase.p[1])
 NegLenIsGarbage == (Handled /\ NegLen) => cls = "garbage"
+\* a number spelt with a sign, blank, newline or underscore is not in the grammar
+SpeltNumber == kase.fam = "mut" /\ Len(kase.p) = 2 /\ kase.p[2] \in {7, 8, 9, 10}
+SpeltNumberIsGarbage == (Handled /\ SpeltNumber) => cls = "garbage"
 \* changing payload bytes only leaves a well-formed message
 OnlyOpaque == kase.fam = "mut" /\ \A j \in 1..(Len(kase.p) \div 2) : kase.p[2 * j] = 6
 OpaqueEditWellFormed == (Handled /\ OnlyOpaque) => cls = "wellformed"
 \* a top-level field of the wrong type, or a missing required field, is garbage (entry i of the datagram dict is field i-1;
 \* the payload of a response may be of any type, the arguments of a request may be absent)
 ConfEnvelopeIsGarbage == (Handled /\ kase.fam = "conf" /\ Len(kase.p) = 3 /\ kase.p[2] = 0
+                            /\ ~(kase.base = "error" /\ kase.p[1] \in {4, 5} /\ kase.p[3] \in {11, 12})   \* error text of another length
                             /\ ~(kase.base \in {"pong", "nodes", "value"} /\ kase.p[1] = 4)) => cls = "garbage"
 MissEnvelopeIsGarbage == (Handled /\ kase.fam = "miss" /\ Len(kase.p) = 2
                             /\ (kase.p[2] <= 4 \/ kase.base = "error")) => cls = "garbage"
+\* an id or a method name of 1 998 or 64 935 bytes is garbage
+BigEnvelopeIsGarbage == (Handled /\ kase.fam = "big" /\ Len(kase.p) = 3
+                           /\ (kase.p[1] \in {2, 3} \/ (kase.p[1] = 4 /\ kase.base \in {"ping", "store", "findNode", "findValue"}))) => cls = "garbage"
 \* a strict well-formed input is its own canonical encoding
 StrictCanonical == (Handled /\ cls = "wellformed") => Enc(DecodeAll(kase.bytes).v) = kase.bytes
 
